@@ -52,6 +52,19 @@ def run(ck):
         if rr is not None:
             absorb(ck, rr, "race-detector-runs")
             ck.note("goroutine_runs", rr["extra"])
+    # cold call sites: freshly written scripts (every builtin with a literal no script used before) loaded and first run several at a time
+    rc, out, err = vlib.vh(["cold-runs", "-n", "96" if q else "1500", "-g", "12"], race=True, timeout=3000,
+                           env={"GORACE": "halt_on_error=0 exitcode=0"}, check=False)
+    err_all += err
+    try:
+        absorb(ck, json.loads(out), "cold-call-sites")
+    except Exception:
+        fatal = re.search(r"fatal error: (concurrent map [a-z ]+)", err)
+        if fatal and "github.com/GuanceCloud/platypus/" in err:
+            frames = re.findall(r"github.com/GuanceCloud/platypus/[^\s(]+", err[fatal.start():])
+            ck.disagreement("datarace-fatal:" + "|".join(frames[:2]), {"part": "cold call sites", "fatal": fatal.group(1), "report": err[fatal.start():][:6000]})
+        else:
+            raise vlib.Broken("cold-runs produced no summary (rc=%d):\n%s" % (rc, err[-3000:]))
     err = err_all
     reports = re.findall(r"WARNING: DATA RACE.*?={18}", err, flags=re.S)
     for rep in reports[:5]:
